@@ -233,6 +233,78 @@ def x5_predicates(F, R):
     R.count('selection_predicates', nfold)
 
 
+VSOCK_OPS = {1: 'ConnectionRequest', 2: 'Connected', 3: 'Disconnected', 4: 'Disconnected', 5: 'Received', 6: 'CreditUpdate', 7: 'CreditRequest'}
+
+
+def x10_event_decoding(F, R):
+    """A received header is turned into the event the protocol defines for its operation code (1 request, 2 response, 3 reset,
+    4 shutdown, 5 data, 6 credit update, 7 credit request); reset and shutdown are told apart in the disconnect reason; control
+    packets that carry data are refused."""
+    n = 0
+    for b in F.bodies.values():
+        if not F.handwritten(b) or b['kind'] != 'AssocFn' or 'device::socket' not in b['id'] or b['arg_count'] != 1:
+            continue
+        sig = b.get('sig', '')
+        if 'VirtioVsockHdr' not in sig.split('->')[0] or 'VsockEvent' not in sig.split('->')[-1] or b.get('impl_adt', '').rsplit('::', 1)[-1] != 'VsockEvent':
+            continue
+        sg = supergraph(F, b['id'])
+        where = fn_site(F, b['id'])
+        try:
+            paths = [p for p in PathEnum(sg).run() if not p.panicked]
+        except PathLimit as e:
+            R.abstain('X1', b['id'] + ':event-decoding', str(e), where)
+            continue
+        n += 1
+        bad = None
+        rows = 0
+        for op in range(0, 9):
+            for ln in (0, 5):
+                def leaf(t, op=op, ln=ln):
+                    s_ = fmt(t)
+                    if t[0] in ('load0', 'load') and s_.endswith('.op)') or s_.endswith('.op'):
+                        return op
+                    if t[0] in ('load0', 'load') and (s_.endswith('.len)') or s_.endswith('.len')):
+                        return ln
+                    if 'log::' in s_:
+                        return 0
+                    raise Unfoldable(s_[:60])
+                fo = Folder(leaf)
+                try:
+                    hit = [p for p in paths if path_holds(fo, p)]
+                except Unfoldable as e:
+                    bad = 'unfoldable: %s' % e
+                    break
+                rows += 1
+                if len(hit) != 1:
+                    bad = 'op %d len %d: %d feasible paths' % (op, ln, len(hit))
+                    break
+                r = hit[0].ret
+                ev = err_variant(r)
+                want = VSOCK_OPS.get(op)
+                if want is None or (ln and want != 'Received'):
+                    if ev == 'Ok':
+                        bad = 'op %d with %d payload bytes is accepted' % (op, ln)
+                        break
+                    continue
+                got = [x[1].rsplit('::', 1)[1] for x in subterms(r) if x[0] == 'agg' and '::VsockEventType::' in x[1]]
+                if ev != 'Ok' or got[:1] != [want]:
+                    bad = 'op %d is decoded as %s, the protocol says %s' % (op, got[:1] or ev, want)
+                    break
+                if want == 'Disconnected':
+                    rs = [x[1].rsplit('::', 1)[1] for x in subterms(r) if x[0] == 'agg' and '::DisconnectReason::' in x[1]]
+                    if rs[:1] != [{3: 'Reset', 4: 'Shutdown'}[op]]:
+                        bad = 'op %d (%s) is reported with disconnect reason %s' % (op, {3: 'RST', 4: 'SHUTDOWN'}[op], rs[:1])
+                        break
+            if bad:
+                break
+        R.tables += rows
+        if bad and bad.startswith('unfoldable'):
+            R.abstain('X1', b['id'] + ':event-decoding', bad, where)
+            continue
+        R.check(bad is None, 'X1', '%s:event-decoding' % b['id'], where, 'operation codes 1..7 decode to the protocol\'s events (%d rows)' % rows, 'event decoding: %s' % bad)
+    R.count('event_decoders', n)
+
+
 def x6_listen(F, R, listen_field):
     n = 0
     for b in F.bodies.values():
@@ -306,6 +378,7 @@ def x7_shutdown_flag(F, R):
 def run(F, R):
     x5_predicates(F, R)
     x7_shutdown_flag(F, R)
+    x10_event_decoding(F, R)
     M = model(F)
     M.require_rings()
     roles = C05.classify_api(C05.queue_api(F, M))
